@@ -27,7 +27,7 @@ def teardown(ctx):
 
 def gen_cases(tier, seed):
     thorough = tier == "thorough"
-    for k in range(1200 if thorough else 120):
+    for k in range(3000 if thorough else 120):
         r = rng(seed, "C19", k)
         p = progs.gen_program(r, r.choice([6, 10, 20, 40]), origin=r.choice([0x1000, 0x80, None, 0xC000]))
         lines = progs.render(p)
